@@ -33,12 +33,13 @@ def check(ctx, tier):
     like_and_add(ctx, tk)
     fill_values(ctx, tk)
     values_state(ctx, tk)
+    scalar_expansion(ctx, tk)
     fs = [f for q, f in ctx.program.funcs.items() if q.startswith("hashtable.")]
     hazards.h2_argmax_of_mask(ctx, tk, "C11.b", fs)
     W.report(ctx, tk, "C11.j", fs)
     tk.purity("C11.p", [ctx.func(q) for q in ['hashtable.HashTable.__getitem__', 'hashtable.HashTable.contains', 'hashtable.HashTable.__add__', 'hashtable.HashTable.__eq__', 'hashtable.HashTable.items', 'hashtable.HashTable.to_dict', 'hashtable.HashTable._get_indices', 'hashtable.HashTable.__array_function__', 'hashtable.HashSet.contains', 'hashtable.zeros_like', 'hashtable.ones_like']], "the operation does not write into its operands' buffers", content_only=True)
     from .. import hazards as _hz, scopes as _sc
-    _hz.generic(ctx, tk, "C11.z", _sc.scope(tk, "C11"))
+    _hz.generic(ctx, tk, "C11.z", _sc.scope(tk, "C11", depth=2))
     return {}
 
 
@@ -343,8 +344,32 @@ def like_and_add(ctx, tk):
     def safe(t):
         c = attr_chain(t)
         return ("safe_mode", True) if c and c[-1] == "_safe_mode" else None
-    check_guard(ctx, "C11.g", f, rets, Formulas([m, safe]), lambda A: A["same_keys"] or not A["safe_mode"], ["same_keys", "safe_mode"],
-                "tables are added only after refusing when their key sets differ", fa=fa)
+    def not_positional(t):
+        """conditions that cannot establish that the two key arrays hold the same key at every *position*:
+        geometry-only comparisons (._shape, lengths, sizes) and comparisons of sorted / de-duplicated / counted keys"""
+        from ..guards import aggregate_only
+        if aggregate_only(t):
+            return True
+        if t.k == "bool":
+            return all(not_positional(x) for x in t.a[1])
+        if t.k == "un" and t.a[0] == "not":
+            return not_positional(t.a[1])
+        if t.k == "call" and (attr_chain(t.a[0]) or ("",))[-1] in ("all", "any", "array_equal") and t.a[1]:
+            return all(not_positional(x) for x in t.a[1]) if (attr_chain(t.a[0]) or ("",))[-1] != "array_equal" else all(_order_free(x) or _geometry(x) for x in t.a[1])
+        if t.k == "cmp":
+            return all(_order_free(x) or _geometry(x) for x in (t.a[1], t.a[2]))
+        return False
+
+    def _order_free(x):
+        return x.k == "call" and ((attr_chain(x.a[0]) or ("",))[-1] in ("sort", "unique", "bincount", "sorted", "set", "frozenset", "sum", "min", "max")
+                                  or (x.a[0].k == "global" and x.a[0].a[0] in ("sorted", "set", "frozenset", "len")))
+
+    def _geometry(x):
+        c = attr_chain(x)
+        return bool(c) and c[-1] in ("_shape", "lengths", "starts", "ends", "size", "n_rows", "shape")
+    check_guard(ctx, "C11.g", f, rets, Formulas([m, safe], irrelevant=not_positional), lambda A: A["same_keys"] or not A["safe_mode"], ["same_keys", "safe_mode"],
+                "tables are added only after refusing when their key sets differ", fa=fa,
+                describe="values are added position by position: equal bucket geometry and equal sorted keys do not put the same key at the same position")
     for r in rets:
         tm = fa.term(r.ast.value, r)
         if tm.k == "call" and len(tm.a[1]) >= 2:
@@ -408,6 +433,43 @@ def fill_values(ctx, tk):
             guarded = any(t.k == "call" and call_name(t) == "isinstance" and truth for t, truth, _ in facts_at(fa, n))
             ctx.decide("C11.h", f, "materialisation happens only while the values are still a scalar", True if guarded else False,
                        "existing per-key values would be overwritten", node=n.ast, key="guard", engine="E1")
+
+
+def scalar_expansion(ctx, tk):
+    """E5 extents: while all keys share one scalar value, that scalar is expanded on demand; the expansion has one
+    entry per *key* (cells of the bucket array) or per queried key - never one per bucket (rows)"""
+    what = "the shared scalar value is expanded to one entry per key (or per queried key), not one per bucket"
+    for q, f in ctx.program.funcs.items():
+        if not q.startswith("hashtable.") or f.cls is None or not f.params:
+            continue
+        fa = ctx.fa(f)
+        selfn = f.params[0]
+        for n, c in find_calls(fa, lambda c: np_call(c, {"full", "ones", "zeros", "empty"}) and c.a[1]):
+            if not any(attr_chain(x) == (selfn, "_values") for a in list(c.a[1][1:]) + [v for _k, v in c.a[2]] for x in walk(a)) and np_call(c, {"full"}):
+                continue
+            if not np_call(c, {"full"}):
+                continue
+            cnt = c.a[1][0]
+            verdicts = []
+            for a in alts(cnt):
+                ch = attr_chain(a)
+                if ch and ch[:2] == (selfn, "_keys") and ch[-1] == "size":
+                    verdicts.append(True)
+                elif a.k == "call" and call_name(a) == "len" and a.a[1] and attr_chain(a.a[1][0]) == (selfn, "_keys"):
+                    verdicts.append(False)
+                elif ch and ch[:2] == (selfn, "_keys") and ch[-1] in ("n_rows",):
+                    verdicts.append(False)
+                elif a.k == "sub" and attr_chain(a.a[0]) and attr_chain(a.a[0])[:2] == (selfn, "_keys") and attr_chain(a.a[0])[-1] == "shape":
+                    verdicts.append(False)
+                elif a.k == "call" and call_name(a) == "len" and a.a[1] and any(x.k == "param" for x in alts(a.a[1][0])):
+                    verdicts.append(True)
+                elif ch and ch[-1] == "size" and any(x.k == "param" and x.a[0] != selfn for x in walk(a)):
+                    verdicts.append(True)
+                else:
+                    verdicts.append(None)
+            ok = False if False in verdicts else (True if all(v is True for v in verdicts) else None)
+            ctx.decide("C11.h", f, what, ok, "`%s`: len() of the bucket array is the number of buckets (the modulus); with fewer buckets than keys the "
+                       "expansion is shorter than the key list and zip() drops keys silently" % (c,), node=c.node, key="expansion", engine="E5")
 
 
 def values_state(ctx, tk):
